@@ -901,7 +901,7 @@ func init() {
 		Rule: "seeded. rt: metadata values with 0..300 blocks (timestamps anywhere in int64; steps +300, +1, random, 2^32-1, and - in the invalid half - backwards, duplicate, >= 2^32; per-block counts small, 2^32-1, >= 2^32, 2^64-1; random totals, offsets, lengths, encoder bytes) through the real Marshal, then the real Unmarshal on the produced bytes; the bytes and the decoded value are compared with the model. " +
 			"unm: the real Unmarshal on random bytes, boundary lengths, and marshalled metadata that was truncated, extended, bit-flipped, overwritten, or given another block count (n+1, 2n, 2^32, 2^56, 2^64-1, ...). " +
 			"hist: 1..5 writer sessions (GPDir Open/WriteBlocks*/Close with or without Close after a rejected block, or goDB.DBWriter.Write with a small flow map) on one day directory in a temporary directory, null encoder, 0..5 blocks each (1 in 25 histories: 150..300 blocks), steps as above, then NewDirReader.Open; per-write results, directory suffix, .blockmeta bytes and reopened metadata compared with the model. " +
-			"sfx: MarshalString of seven uint64 totals (0, 2^32-1, 2^32, 2^63, 2^64-1, random) and UnmarshalString of the result; sfxd: UnmarshalString on seven alphanumeric fields of 0..12 digits (longer than 11 wraps), other field counts, stray punctuation, arbitrary bytes <= 'z' (bytes above 'z' crash the dependency's decoder: outside this property, see C06). " +
+			"sfx: MarshalString of seven uint64 totals (0, 2^32-1, 2^32, 2^63, 2^64-1, random) and UnmarshalString of the result; sfxd: UnmarshalString on seven alphanumeric fields of 0..12 digits (longer than 11 wraps), other field counts, stray punctuation, arbitrary bytes <= 'z' (bytes above 'z' are refused before decoding since the C06 fix; the corpus holds one such suffix). " +
 			"Non-trivial: rt with >= 2 blocks; unm with >= 144 bytes; hist with >= 2 attempted writes; every sfx, non-empty sfxd. Distinct = distinct case lines.",
 		Gen: c03Gen,
 		Run: c03Run,
